@@ -155,6 +155,17 @@ impl BTreeSet<BaseUnit> {
     }
 }
 
+impl BTreeSet<BaseUnit> {
+    /// BTreeSet<BaseUnit>::contains(&str) through Borrow<str>
+    #[verifier::external_body]
+    pub fn contains_str(&self, key: &str) -> (r: bool)
+        ensures
+            r == exists|u: BaseUnit| #[trigger] self@.contains(u) && unit_name(u) == key@,
+    {
+        unimplemented!()
+    }
+}
+
 impl BaseUnit {
     /// ToOwned / Clone
     #[verifier::external_body]
